@@ -320,25 +320,29 @@ class Ctx:
 
 
 def run_group(cmd, timeout, **kw):
-    """subprocess.run in its own session; the whole process group (pool children, grandchildren) is killed
-    when the command finishes or times out, so nothing outlives a case.  -> (returncode | "timeout", stdout, stderr)"""
+    """Run a command in its own session and wait for *that process* only (its output goes to temporary
+    files, not pipes, so surviving grandchildren cannot keep us waiting); the whole process group (pool
+    children, grandchildren) is killed when it finishes or times out, so nothing outlives a case.
+    -> (returncode | "timeout", stdout bytes, stderr bytes)"""
     import signal
-    p = subprocess.Popen(cmd, start_new_session=True, stdout=subprocess.PIPE, stderr=subprocess.PIPE, **kw)
-    try:
-        out, err = p.communicate(timeout=timeout)
-        rc = p.returncode
-    except subprocess.TimeoutExpired:
-        rc, out, err = "timeout", b"", b""
-    finally:
+    with tempfile.TemporaryFile() as fo, tempfile.TemporaryFile() as fe:
+        p = subprocess.Popen(cmd, start_new_session=True, stdout=fo, stderr=fe, stdin=subprocess.DEVNULL, **kw)
         try:
-            os.killpg(p.pid, signal.SIGKILL)
-        except OSError:
-            pass
-        try:
-            p.communicate(timeout=5)
-        except Exception:  # noqa: BLE001
-            pass
-    return rc, out, err
+            rc = p.wait(timeout=timeout)
+        except subprocess.TimeoutExpired:
+            rc = "timeout"
+        finally:
+            try:
+                os.killpg(p.pid, signal.SIGKILL)
+            except OSError:
+                pass
+            try:
+                p.wait(timeout=10)
+            except Exception:  # noqa: BLE001
+                pass
+        fo.seek(0)
+        fe.seek(0)
+        return rc, fo.read()[-20000:], fe.read()[-20000:]
 
 
 def guard(fn):
